@@ -80,6 +80,7 @@ type cbResult struct {
 	RandomSteps int               `json:"random_steps"`
 	Settles     int               `json:"settle_checks"`
 	OnDataCalls int               `json:"ondata_calls"`
+	LedgerChecks int              `json:"ledger_checks"`
 	Samples     []string          `json:"samples"`
 }
 
@@ -513,7 +514,8 @@ func (w *cbWorld) finish() {
 	}
 }
 
-func (w *cbWorld) cleanup() {
+// cleanup closes both ends, settles the pair and checks the buffer ledger (C09): nothing allocated, free lists intact
+func (w *cbWorld) cleanup() string {
 	vsReset(vsOff)
 	if w.tx != nil {
 		w.tx.Close()
@@ -522,6 +524,13 @@ func (w *cbWorld) cleanup() {
 		w.rx.Close()
 	}
 	w.pair.settle()
+	if d := w.pair.integrity(); d != "" {
+		return "both ends closed and settled: " + d
+	}
+	if used := w.pair.inUse(w.pair.A); used != 0 {
+		return fmt.Sprintf("both ends of the stream are closed and the session is settled, but %d buffer(s) are still allocated", used)
+	}
+	return ""
 }
 
 func TestVS_Callback(t *testing.T) {
@@ -609,9 +618,12 @@ func TestVS_Callback(t *testing.T) {
 		w.closeWorld()
 		if bad {
 			mkPair()
-		} else {
-			w.cleanup()
+		} else if d := w.cleanup(); d != "" {
+			res.Violations = append(res.Violations, cbViolation{Property: "C09", Kind: "ledger", Detail: d, Schedule: sc.Name, Steps: sc.Steps,
+				Events: sc.Events, UserClose: sc.UserClose, InOnData: sc.InOnData, Kf: w.kf})
+			mkPair()
 		}
+		res.LedgerChecks++
 	}
 	for _, sc := range job.Schedules {
 		run(sc, true)
@@ -686,9 +698,12 @@ func TestVS_Callback(t *testing.T) {
 		w.closeWorld()
 		if bad {
 			mkPair()
-		} else {
-			w.cleanup()
+		} else if d := w.cleanup(); d != "" {
+			res.Violations = append(res.Violations, cbViolation{Property: "C09", Kind: "ledger", Detail: d, Schedule: sc.Name, Steps: sc.Steps,
+				Events: sc.Events, UserClose: sc.UserClose, InOnData: sc.InOnData, Kf: w.kf})
+			mkPair()
 		}
+		res.LedgerChecks++
 		res.RandomRuns++
 		if len(res.Samples) < 3 {
 			res.Samples = append(res.Samples, fmt.Sprintf("events=%s userclose=%v closeInOnData=%v steps=%d", sc.Events, sc.UserClose, sc.InOnData, len(sc.Steps)))
